@@ -182,6 +182,58 @@ func genOps(r *rng, n int) []op {
 			ops = append(ops, op{Target: tgt, Fn: "validateTOTP", Args: []jsArg{jstr(rfcKeyB32), jstr("+" + code[1:]), jint(int64(rc[1]) * 30), jstr(ds), jstr(as), jint(0), jint(30)}})
 		}
 	}
+	// key-confusion histories: pairs of calls of one function whose argument lists are DIFFERENT but coincide under a
+	// careless rendering (a memo keyed by args.join(sep), by String(arg), by JSON without types): the same number as a number
+	// and as text, and text arguments with a separator character moved across the argument boundary.  Both orders, through
+	// both tables of names, back to back — the second answer must be that call's own answer.
+	{
+		key := []byte("12345678901234567890")
+		code1 := refCode(key, 1, 6, 0)
+		for _, tgt := range []string{"export", "global"} {
+			pairs := [][2][]jsArg{
+				{{jstr(rfcKeyB32), jstr("1"), jstr("6"), jstr("SHA1")}, {jstr(rfcKeyB32), jint(1), jstr("6"), jstr("SHA1")}},
+				{{jstr(rfcKeyB32), jint(1), jstr("6"), jstr("SHA1")}, {jstr(rfcKeyB32), jstr("1"), jstr("6"), jstr("SHA1")}},
+				{{jstr(rfcKeyB32), jint(1), jint(6), jstr("SHA1")}, {jstr(rfcKeyB32), jint(1), jstr("6"), jstr("SHA1")}},
+			}
+			for _, p := range pairs {
+				ops = append(ops, op{Target: tgt, Fn: "generateHOTP", Args: p[0]}, op{Target: tgt, Fn: "generateHOTP", Args: p[1]})
+			}
+			vp := [][2][]jsArg{
+				{{jstr(rfcKeyB32), jstr(code1), jstr("1"), jstr("6"), jstr("SHA1"), jint(0)}, {jstr(rfcKeyB32), jstr(code1), jint(1), jstr("6"), jstr("SHA1"), jint(0)}},
+				{{jstr(rfcKeyB32), jstr(code1), jint(1), jstr("6"), jstr("SHA1"), jint(0)}, {jstr(rfcKeyB32), jstr(code1), jint(1), jstr("6"), jstr("SHA1"), jstr("0")}},
+				{{jstr(rfcKeyB32), jstr(code1), jint(1), jstr("6"), jstr("SHA1"), jint(0)}, {jstr(rfcKeyB32), jstr(code1), jint(10), jstr("6"), jstr("SHA1"), jint(0)}},
+			}
+			for _, p := range vp {
+				ops = append(ops, op{Target: tgt, Fn: "validateHOTP", Args: p[0]}, op{Target: tgt, Fn: "validateHOTP", Args: p[1]})
+			}
+			ops = append(ops, op{Target: tgt, Fn: "generateTOTP", Args: []jsArg{jstr(rfcKeyB32), jstr("59"), jstr("6"), jstr("SHA1"), jint(30)}},
+				op{Target: tgt, Fn: "generateTOTP", Args: []jsArg{jstr(rfcKeyB32), jint(59), jstr("6"), jstr("SHA1"), jint(30)}},
+				op{Target: tgt, Fn: "generateTOTP", Args: []jsArg{jstr(rfcKeyB32), jint(59), jstr("6"), jstr("SHA1"), jstr("30")}})
+			// a refused call repeated: the second answer must be the refusal again (nothing may be remembered from a failed
+			// decoding / parsing), and a valid call after it must be answered as if alone
+			for _, bad := range []string{"GEZDGNBVGY3TQOJ1", "!!!", "A", "GEZDGNBVGY3TQOJQ=", "gezdgnbvgy3tqoj\u017f"} {
+				for rep := 0; rep < 2; rep++ {
+					ops = append(ops, op{Target: tgt, Fn: "generateHOTP", Args: []jsArg{jstr(bad), jint(7), jstr("6"), jstr("SHA1")}})
+				}
+				emptyKeyCode := refCode(nil, 7, 6, 0)
+				ops = append(ops, op{Target: tgt, Fn: "validateHOTP", Args: []jsArg{jstr(bad), jstr(emptyKeyCode), jint(7), jstr("6"), jstr("SHA1"), jint(0)}},
+					op{Target: tgt, Fn: "validateHOTP", Args: []jsArg{jstr(bad), jstr(emptyKeyCode), jint(7), jstr("6"), jstr("SHA1"), jint(0)}},
+					op{Target: tgt, Fn: "generateTOTP", Args: []jsArg{jstr(bad), jint(59), jstr("6"), jstr("SHA1"), jint(30)}},
+					op{Target: tgt, Fn: "generateTOTP", Args: []jsArg{jstr(bad), jint(59), jstr("6"), jstr("SHA1"), jint(30)}},
+					op{Target: tgt, Fn: "validateTOTP", Args: []jsArg{jstr(bad), jstr(emptyKeyCode), jint(210), jstr("6"), jstr("SHA1"), jint(0), jint(30)}},
+					op{Target: tgt, Fn: "generateHOTP", Args: []jsArg{jstr(rfcKeyB32), jint(7), jstr("6"), jstr("SHA1")}})
+			}
+			for _, sep := range []string{"|", ",", ":", " ", "/", "-", "_", ";", "\x00", "\t", "&", "="} {
+				a := []jsArg{jstr("totp"), jstr("Acme" + sep + "EU"), jstr("bob"), jstr(rfcKeyB32), jstr("6"), jstr("SHA1")}
+				b := []jsArg{jstr("totp"), jstr("Acme"), jstr("EU" + sep + "bob"), jstr(rfcKeyB32), jstr("6"), jstr("SHA1")}
+				ops = append(ops, op{Target: tgt, Fn: "generateOTPURL", Args: a}, op{Target: tgt, Fn: "generateOTPURL", Args: b})
+				// the same shift between secret and code of a validation
+				ops = append(ops, op{Target: tgt, Fn: "validateHOTP", Args: []jsArg{jstr(rfcKeyB32 + sep), jstr(code1), jint(1), jstr("6"), jstr("SHA1"), jint(0)}},
+					op{Target: tgt, Fn: "validateHOTP", Args: []jsArg{jstr(rfcKeyB32), jstr(sep + code1), jint(1), jstr("6"), jstr("SHA1"), jint(0)}},
+					op{Target: tgt, Fn: "validateHOTP", Args: []jsArg{jstr(rfcKeyB32), jstr(code1), jint(1), jstr("6"), jstr("SHA1"), jint(0)}})
+			}
+		}
+	}
 	digitsS := []string{"6", "8", "9", "10", "6", "8", "10", "7", "x", "06", "08", "+8", "010", "264", "266", " 8", "8 ", "-248"}
 	algoS := []string{"SHA1", "SHA256", "SHA512", "sha1", "MD5"}
 	dOf := map[string]int{"6": 6, "8": 8, "9": 9, "10": 10}
